@@ -186,6 +186,8 @@ def ty_productions(prog, t, pos, out):
         ty_productions(prog, t[2], pos + ":err", out)
     elif k == "oref" and pos in ("cbarg", "trarg"):
         out["%s:&%sopaque" % (pos, "mut " if t[2] else "")] += 1
+    elif k == "obox" and pos in ("cbarg", "trarg"):
+        out["%s:Box<opaque> (given for good)" % pos] += 1
     elif k == "cb":
         out[pos + ":callback"] += 1
         if len(t) > 4:
@@ -227,7 +229,7 @@ def productions(res_list):
             m, owner = st["m"], st["owner"]
             out["self:%s:%s" % (owner.kind, m.self_kind[0] if m.self_kind else "static")] += 1
             if sum(1 for _, pt in m.params if pt[0] == "cb") > 1:
-                out["param:two callbacks in one method"] += 1
+                out["param:two callbacks in one method", "cbarg:Box<opaque>"] += 1
             for pn, pt in m.params:
                 ty_productions(prog, pt, "param", out)
                 if pn in getattr(m, "dip_params", ()):
@@ -251,7 +253,7 @@ REQUIRED_C = ["param:prim:u8", "param:prim:i64", "param:prim:f32", "param:prim:f
               "ret:&opaque", "ret:Option<prim>", "ret:DiplomatOption<prim>", "ret:result", "ret:ok:unit", "ret:err:unit", "ret:ordering",
               "ret:&str:utf8:static", "ret:&slice", "arm:ok", "arm:err", "arm:some", "arm:none", "destroy", "self:struct:val",
               "self:enum:val", "self:opaque:mut", "field:DiplomatOption<prim>", "field:struct",
-              "param:trait", "trait:&mut self", "trarg:struct", "trarg:Option<prim>", "trret:Option<prim>", "cbarg:Option<prim>", "cbret:Option<prim>", "param:callback:static", "trait:method disabled in C", "param:Diplomat spelling:slice", "param:Diplomat spelling:str", "param:Diplomat spelling:oslice", "param:Diplomat spelling:strs", "param:two callbacks in one method"]
+              "param:trait", "trait:&mut self", "trarg:struct", "trarg:Option<prim>", "trret:Option<prim>", "cbarg:Option<prim>", "cbret:Option<prim>", "param:callback:static", "trait:method disabled in C", "param:Diplomat spelling:slice", "param:Diplomat spelling:str", "param:Diplomat spelling:oslice", "param:Diplomat spelling:strs", "param:two callbacks in one method", "cbarg:Box<opaque>"]
 
 
 def quota_gaps(prods, required):
@@ -322,14 +324,15 @@ def c03_leg(chk, tier, seed):
             r = run_cpp_program(seed + 7500, i - nprog, "c03cpp", profile=(dict(prof, utf8_bias=True, cb_bias=0.3) if i % 2 else prof), ncalls=45, stds=("c++17",))
             r["lang"] = "cpp"
             return r
-        r = run_c_program(seed + 7000, i, "c03", profile=(dict(prof, traits=True, trait_prob=0.3) if i % 2 == 0 else dict(prof, multi_cb=True, cb_bias=0.25) if i % 4 == 1 else prof), ncalls=45, valgrind=(i < (60 if thorough else 4)), keep=False)
+        cprof = dict(prof, cb_oboxes=True)          # objects given to callbacks / trait methods for good (not expressible through the C++ wrappers: F52)
+        r = run_c_program(seed + 7000, i, "c03", profile=(dict(cprof, traits=True, trait_prob=0.3) if i % 2 == 0 else dict(cprof, multi_cb=True, cb_bias=0.25) if i % 4 == 1 else cprof), ncalls=45, valgrind=(i < (60 if thorough else 4)), keep=False)
         r["lang"] = "c"
         return r
     results = pmap(one, range(nprog + ncpp))
     # the same kind of histories driven from Rust as a foreign caller would, interpreted by Miri: the macro's own glue under
     # Stacked Borrows / validity / leak checking (no C compiler's view of the types involved)
     nmiri = 400 if thorough else 40
-    mres = run_miri_programs(seed + 7900, nmiri, "c03", profile=dict(prof, traits=True, trait_prob=0.3, multi_cb=True), ncalls=(40 if thorough else 25),
+    mres = run_miri_programs(seed + 7900, nmiri, "c03", profile=dict(prof, traits=True, trait_prob=0.3, multi_cb=True, cb_oboxes=True), ncalls=(40 if thorough else 25),
                              flags_for=lambda i: ["", "-Zmiri-symbolic-alignment-check", "-Zmiri-strict-provenance", "-Zmiri-tree-borrows"][i % 4])
     results += mres
     stats = {"programs": 0, "programs_cpp": 0, "programs_miri": 0, "calls": 0, "objects_tracked": 0, "callbacks_released": 0, "skipped": 0}
